@@ -195,6 +195,12 @@ bool obj_eq(JsonObjectConst a, JsonObjectConst b) {
   return a == b;
 }
 
+// copied zero-terminated strings (char*, char[N]): the adapter kind whose size is strlen()
+void mem_cstr(ResourceManager* r, VariantData* v, char* m) {
+  (void)r->saveString(adaptString(m));
+  (void)v->setString(adaptString(m), r);
+}
+
 // memory layer + collections + variants
 void mem(ResourceManager* r, VariantData* v, ArrayData* a, ObjectData* o, CollectionData* c, const char* s, size_t n) {
   (void)r->allocVariant();
